@@ -522,6 +522,8 @@ def r7(model: Model, rep: Report):
     for p in [q for q in paths if q.exit == "return"]:
         lp = loop_of(p)
         if lp is None:
+            if p.value is not None and subterms(p.value, lambda y: y[0] == "attr" and y[1] == s and y[2] != "_circuit_graph") and any(loop_of(q) is not None for q in paths if q.exit == "return"):
+                continue        # an answer from a stored listing: no hand-over happens on this path (whether it may be stored is C02.L5 / C03.H2)
             raise AnalysisError(f"{construct}: no loop")
         elem = ("bound", "for", lp.node.lineno, show(lp.term))
         op = ("attr", elem, "operation")
